@@ -263,7 +263,75 @@ def sort_spec():
                  real=RPH + ":sort")
 
 
+PERM_DEFS = r'''
+/* Eigen::PermutationMatrix P with indices array p (ASSUMED library contract, Eigen documentation): (P * v)[p[i]] = v[i]; (P^T * v)[i] = v[p[i]];
+ * (M * P).col(i) = M.col(p[i]); (M * P^T).col(p[i]) = M.col(i).  Results are fresh objects of the same shape whose entries / column tags are stated at
+ * the two Skolem positions.  For the scatter forms the source of position g is SOME w with p[w] == g; it exists because p - argsort's result - is an
+ * injective map of [0, k) into itself (proved in C18), hence onto (pigeonhole: mathematics, listed as an assumption). */
+static Index PERM_PREIMAGE(const IndexArray *p, Index g) { Index w = nondet_Index(); __CPROVER_assume(0 <= w && w < p->size && p->data[w] == g); return w; }
+static Index PERM_SRC(const IndexArray *p, Index g, _Bool gather)
+{ if (gather) { __CPROVER_assume(0 <= p->data[g] && p->data[g] < p->size); return p->data[g]; } return PERM_PREIMAGE(p, g); }
+static void PERM_VEC(RP *self, const IndexArray *p, _Bool gather)
+{
+  Index k = VEC_SIZE(self->m_values);
+  __CPROVER_assert(p->size == k, "Eigen: permutation size equals the vector length");
+  Scalar *nv = VEC_NEW(k); Index *nt = IVEC_NEW(k);
+  if (0 <= g_i && g_i < k) { Index s_ = PERM_SRC(p, g_i, gather); nv[g_i] = self->m_values[s_]; nt[g_i] = self->tag_val[s_]; }
+  if (0 <= g_j && g_j < k) { Index s_ = PERM_SRC(p, g_j, gather); nv[g_j] = self->m_values[s_]; nt[g_j] = self->tag_val[s_]; }
+  self->m_values = nv; self->tag_val = nt;
+}
+static void PERM_MAT(Mat *M, const IndexArray *p, _Bool gather)
+{
+  __CPROVER_assert(p->size == M->cols, "Eigen: permutation size equals the number of columns");
+  Mat N = MAT_NEW(M->rows, M->cols);
+  if (0 <= g_i && g_i < M->cols) N.coltag[g_i] = M->coltag[PERM_SRC(p, g_i, gather)];
+  if (0 <= g_j && g_j < M->cols) N.coltag[g_j] = M->coltag[PERM_SRC(p, g_j, gather)];
+  *M = N;
+}
+'''
+
+
+def _f_sort_perm(report):
+    """RitzPairs::sort written with an Eigen::PermutationMatrix built from argsort's result (generalized extraction; the group is WEAK)."""
+    f = X.locate(RPH, "sort", cls="RitzPairs")
+    spec = capify(sort_spec())
+    K = "VEC_SIZE(self->m_values)"
+    mp = re.search(r"Eigen::PermutationMatrix<[^;]*>\s+(\w+)\(size\(\)\);", f.body)
+    if not mp:
+        raise X.ExtractionBreak("RitzPairs::sort: neither the copy-and-gather loop nor a PermutationMatrix built from argsort")
+    P = mp.group(1)
+    tr = r"(\.transpose\(\)|\.inverse\(\))?"
+    vec = lambda m: "PERM_VEC(self, &%s, %d);" % (P, 1 if m.group(1) else 0)
+    mat = lambda m: "PERM_MAT(&self->%s, &%s, %d);" % (m.group(1), P, 0 if m.group(2) else 1)
+    t, R = cgen.emit(f, "rp_sort", ret_c="void", self_type="RP", members=RP_MEMBERS,
+                     extra_rules=[("argsort", r"(?:const )?std::vector<Index> ind = argsort\(selection, self->m_values\);", "IndexArray ind = argsort(selection, self->m_values, %s);" % K, {"min": 1, "max": 1}),
+                                  ("perm-decl", r"Eigen::PermutationMatrix<[^;]*>\s+%s\(size\(\)\);" % P, "IndexArray %s; %s.size = %s; %s.data = NULL;" % (P, P, K, P), {"min": 1, "max": 1}),
+                                  # the fill loop `P.indices()[i] = ind[i]` for every i in [0, size()): P's index array IS ind
+                                  ("perm-fill", r"for \(Index (\w+) = 0; \1 < size\(\); (?:\1\+\+|\+\+\1)\)\s*\{?\s*%s\.indices\(\)\[\1\] = ind\[\1\];\s*\}?" % P,
+                                   "__CPROVER_assert(ind.size == %s.size, @Q@permutation filled from an index array of its own size@Q@); %s = ind;" % (P, P), {"min": 1, "max": 1}),
+                                  ("perm-vec", r"self->m_values = %s%s \* self->m_values;" % (P, tr), vec, {"min": 1, "max": 1}),
+                                  ("perm-mat", r"self->(m_vectors|m_residues|m_small_vectors) = self->\1 \* %s%s;" % (P, tr), mat, {"min": 3, "max": 3})],
+                     contract=spec.frame_contract(), maythrow=["argsort"])
+    if re.search(r"PermutationMatrix|\.indices\(\)|size\(\)", t):
+        raise X.ExtractionBreak("RitzPairs::sort (permutation form): an unrecognised construct remains")
+    report["RitzPairs::sort (permutation form)"] = R.fired
+    return SORT_DEFS + PERM_DEFS + sort_order_defs() + t, spec
+
+
 def f_sort(report):
+    try:
+        r = _f_sort_canonical(report)
+        report["RitzPairs::sort form"] = "canonical"
+        return r + (None,)
+    except X.ExtractionBreak as e:
+        report["RitzPairs::sort canonical break"] = str(e)
+    t, spec = _f_sort_perm(report)
+    report["RitzPairs::sort form"] = "permutation"
+    return t, spec, ("RitzPairs::sort restructured around an Eigen::PermutationMatrix: Eigen's product semantics enter as an assumed contract, facts stated only at the "
+                     "Skolem positions; a refutation counts only if the native replay reproduces a mis-paired result")
+
+
+def _f_sort_canonical(report):
     f = X.locate(RPH, "sort", cls="RitzPairs")
     ml = re.search(r"for \(Index (\w+) = 0; \1 < size\(\); (?:\1\+\+|\+\+\1)\)", f.body)
     if not ml:
@@ -1059,9 +1127,12 @@ def build(tier):
     t_cc, s_cc = f_check_convergence(report)
     G("check_convergence", base + t_cc + s_cc.harness("h", ALLOC_RP + "  Scalar tol = nondet_Scalar(); Index number_eigenvalues = nondet_Index();", "self, tol, number_eigenvalues"),
       "check_convergence", [RPH + ":check_convergence"], expect=["loop_invariant_step", "assigns"])
-    t_so, s_so = f_sort(report)
+    t_so, s_so, so_weak = f_sort(report)
     G("sort", base + skel.stub_argsort() + t_so + s_so.harness("h", ALLOC_RP + "  SortRule selection = nondet_int();", "self, selection"),
-      "rp_sort", [RPH + ":sort"], expect=["loop_invariant_step", "assigns"], note="argsort replaced by its contract (proved in C18)")
+      "rp_sort", [RPH + ":sort"], expect=["assigns"] if so_weak else ["loop_invariant_step", "assigns"],
+      note=("WEAKENED extraction: " + so_weak) if so_weak else "argsort replaced by its contract (proved in C18)")
+    if so_weak:
+        groups[-1].weak = so_weak
 
     ss_t, ss_s = f_search_space(report)
     sbase = base + SHAPE_DEFS
